@@ -31,7 +31,7 @@ pub fn cases(ctx: &Ctx) -> Vec<WCase> {
         let iv = 1 + (i as u32 % 12);
         s.desync = Some(iv);
         s.frames = 600;
-        s.link = Link { drop: rr.pick(&[0.0, 0.0, 0.1]), dup: rr.pick(&[0.0, 0.1]), base_ms: rr.pick(&[0u64, 10, 20, 40]), jitter_ms: rr.pick(&[0u64, 5, 20]), outages: vec![], faults: vec![] };
+        s.link = Link { drop: rr.pick(&[0.0, 0.0, 0.1]), dup: rr.pick(&[0.0, 0.1]), base_ms: rr.pick(&[0u64, 10, 20, 40]), jitter_ms: rr.pick(&[0u64, 5, 20]), outages: vec![], faults: vec![], stragglers: vec![] };
         s.notify_ms = 20_000;
         s.timeout_ms = 30_000;
         // divergence frame: a grid over 1..300 (thorough: every frame 1..=120 is hit many times)
